@@ -169,9 +169,12 @@ class _Quadrature(torch.autograd.Function):
         allparams = ctx.param_sep.reconstruct_params(tensor_params)
         nparams = ctx.nparams
         params = allparams[:nparams]
+        objparams = allparams[nparams:]
         fcn = ctx.fcn
 
-        with fcn.disable_state_change():
+        # the boundary terms are evaluated with the tensors that the function's
+        # object held in the forward call (it might hold other ones by now)
+        with fcn.useobjparams(objparams):
 
             # restore xl, and xu
             xlxu_tensor = ctx.saved_tensors[:nlimits]
